@@ -19,7 +19,7 @@ def one(name):
         props = [prop] + [c for c in meta.get("my_checks", {}) if c != prop]
         rc, mechs = 0, []
         for c in props:
-            p = subprocess.run(["./check", c, "--tier", "quick"], cwd=V,
+            p = subprocess.run(["./check", c, "--tier", "quick", "--seed", SEED], cwd=V,
                                env=dict(os.environ, RV_REPO=wt, RV_JOBS="4"), capture_output=True, text=True)
             if p.returncode == 1:
                 rc = 1
@@ -32,6 +32,11 @@ def one(name):
         shutil.rmtree(wt, ignore_errors=True)
 
 
+SEED = "0"
+if "--seed" in sys.argv:
+    i = sys.argv.index("--seed")
+    SEED = sys.argv[i + 1]
+    del sys.argv[i:i + 2]
 names = sys.argv[1:] or sorted(os.path.basename(p) for p in glob.glob(os.path.join(V, "seeded", "*")))
 bad = 0
 with cf.ThreadPoolExecutor(6) as ex:
@@ -39,7 +44,7 @@ with cf.ThreadPoolExecutor(6) as ex:
         if rc != 1:
             bad += 1
         print(f"{name}: exit={rc} {info}")
-        if rc is not None:
+        if rc is not None and SEED == "0":
             p = os.path.join(V, "seeded", name, "meta.json")
             m = json.load(open(p))
             m["caught"] = rc == 1
